@@ -12,7 +12,7 @@ from vlib import common as C, engine as E, querygen as QG, genquery as GQ
 LEAN_MODULES = ["Cpf.Props.C15"]
 
 NASTY = ('package gen;\n/* ctrl \x01\x1b\x7f chars & <html>   "quoted" back\\slash */\n'
-         'class Nasty implements Runnable2, Marker {\n  String a = "quote\\" back\\\\slash \\t tab";\n  String b = "ünï 日本";\n'
+         'class Nasty implements Runnable2, Marker {\n  String a = "quote\\" back\\\\slash \\t tab";\n  String b = "ünï 日本";\n  String u = "\\u003cscript\\u003e \\u0026 \\\\u003c"; /* \\u003e in a comment */\n'
          '  /** @author me "q" <b>\n   * @see Other */\n  public void weird(int p1, String p2) throws Exception { emit("x<y>&z", \'c\', 1); }\n}\n')
 
 HDR = re.compile(r"^\tFile: (.*), Line: (\d+) $")
